@@ -92,6 +92,9 @@ def resolve_callee(repo, fi, call):
     f = call.func
     try:
         if isinstance(f, ast.Name):
+            nested = nested_function(fi, f.id)
+            if nested is not None:
+                return nested, 0
             if f.id in _local_names(fi):
                 return None, 0
             kind, m, obj = repo.resolve(fi.mod, f.id)
@@ -108,6 +111,17 @@ def resolve_callee(repo, fi, call):
                 kind, m, obj = repo.resolve(fi.mod, recv)
                 if kind == 'class' and m is not None and not m.external:
                     ci = obj
+            if ci is None and recv in _local_names(fi):
+                # a method call on a local of unknown class: followed when exactly one class of the module defines a
+                # method of that name (``peri.safe_get_context(..)``)
+                defs = [c.methods[f.attr] for c in fi.mod.classes.values() if f.attr in c.methods]
+                if len(defs) == 1 and not any(f.attr in c.class_attrs for c in fi.mod.classes.values()):
+                    decos = [norm(d) for d in defs[0].node.decorator_list]
+                    if not decos:
+                        return defs[0], 1
+                    if decos == ['staticmethod']:
+                        return defs[0], 0
+                return None, 0
             if ci is not None:
                 meth = repo.find_method(ci, f.attr)
                 if meth is not None and not meth.mod.external:
@@ -122,6 +136,30 @@ def resolve_callee(repo, fi, call):
     except AnalysisError:
         pass
     return None, 0
+
+
+def nested_function(fi, name):
+    """The function ``name`` defined inside ``fi`` or inside a function enclosing it (a closure visible from ``fi``)."""
+    mod = fi.mod
+    q = fi.qualname
+    while True:
+        cand = mod.functions.get(q + '.' + name)
+        if cand is not None and isinstance(mod.parents.get(cand.node), (ast.FunctionDef, ast.AsyncFunctionDef, ast.If, ast.Try, ast.With, ast.For)):
+            # (not re-bound as a plain variable in the function that defines it)
+            owner = mod.functions.get(q)
+            if owner is None or not any(isinstance(n, ast.Name) and n.id == name and isinstance(n.ctx, (ast.Store, ast.Del))
+                                        for n in ast.walk(owner.node)):
+                return cand
+            return None
+        q = q.rpartition('.')[0]
+        if not q or q not in mod.functions:
+            return None
+
+
+def free_names(fi):
+    """Names a nested function reads from the enclosing scopes."""
+    loc = _local_names(fi)
+    return set(n.id for n in ast.walk(fi.node) if isinstance(n, ast.Name) and isinstance(n.ctx, ast.Load) and n.id not in loc)
 
 
 def _class_of(fi):
@@ -243,6 +281,9 @@ def _names_only_key(kw):
     """Keyword of ``sorted(<pairs>, ...)`` that cannot look at the values: ``reverse=..`` or ``key=lambda p: p[0]``."""
     if kw.arg == 'reverse':
         return True
+    if kw.arg == 'key' and isinstance(kw.value, ast.Call) and norm(kw.value.func) in ('itemgetter', 'operator.itemgetter') and \
+            len(kw.value.args) == 1 and isinstance(kw.value.args[0], ast.Constant) and kw.value.args[0].value == 0 and not kw.value.keywords:
+        return True
     if kw.arg != 'key' or not isinstance(kw.value, ast.Lambda):
         return False
     lam = kw.value
@@ -319,6 +360,7 @@ class _Taint(object):
     Tags:  ('map', kind, own)   a mapping whose *values* are sensitive (kind: 'resources' | 'defaults')
            ('items', kind)      its items() view (or a sorted / listed copy)
            ('pair', kind)       one (name, value) pair of it
+           ('enum', kind)       enumerate() of its items: (number, (name, value))
            ('val', key, site)   one value of a resources mapping; ``key`` is the local that holds its name
     """
     MAX_DEPTH = 4
@@ -367,7 +409,9 @@ class _Taint(object):
                 if f.id == 'dict' and not e.keywords:
                     return set(t for t in a if t[0] == 'map')
                 if f.id in SEQ_THROUGH:
-                    return set(t for t in a if t[0] == 'items')
+                    return set(t for t in a if t[0] in ('items', 'enum'))
+                if f.id == 'enumerate' and not e.keywords:
+                    return set(('enum', t[1]) for t in a if t[0] == 'items')
         return set()
 
     def is_source(self, e):
@@ -452,11 +496,56 @@ class _Taint(object):
         """+1: 'secret' is known to be in the name where ``node`` is evaluated; -1: known not to be; 0: unknown."""
         if kname is None:
             return 0
-        for t, p in expr_conds(fi, node):
+        cs = expr_conds(fi, node)
+        for t, p in cs:
             s = self.secret_test(fi, t, kname)
             if s:
                 return s if p else -s
+        for t, p in cs:
+            st = self._sentinel(fi, t, p)
+            if st is not None:
+                s = self.secret_test(fi, st[0], kname)
+                if s:
+                    return s if st[1] else -s
         return 0
+
+    def _sentinel(self, fi, t, p):
+        """``x is None`` (with polarity ``p``), where ``x`` is set by ``if T: x = <constant> / else: x = None`` and, apart
+        from that, only where the test on ``x`` has been made: the test tells which branch of T was taken.
+        Returns (T, polarity of T) or None."""
+        if not (isinstance(t, ast.Compare) and len(t.ops) == 1 and isinstance(t.ops[0], (ast.Is, ast.IsNot)) and isinstance(t.left, ast.Name) and
+                isinstance(t.comparators[0], ast.Constant) and t.comparators[0].value is None):
+            return None
+        is_none = p if isinstance(t.ops[0], ast.Is) else not p
+        x = t.left.id
+        if x in fi.params():
+            return None
+        mod = fi.mod
+        stores = [n for n in _walk(fi) if isinstance(n, ast.Name) and n.id == x and isinstance(n.ctx, (ast.Store, ast.Del))]
+        setter = None
+        for n in stores:
+            asg = mod.parents.get(n)
+            iff = mod.parents.get(asg)
+            if isinstance(asg, ast.Assign) and len(asg.targets) == 1 and asg.targets[0] is n and isinstance(iff, ast.If) and \
+                    len(iff.body) == 1 and len(iff.orelse) == 1 and all(
+                        isinstance(b, ast.Assign) and len(b.targets) == 1 and isinstance(b.targets[0], ast.Name) and b.targets[0].id == x and
+                        isinstance(b.value, ast.Constant) for b in (iff.body[0], iff.orelse[0])):
+                setter = iff
+                break
+        if setter is None:
+            return None
+        a, b = setter.body[0].value.value, setter.orelse[0].value.value
+        if (a is None) == (b is None):
+            return None
+        test_stmt = stmt_of(mod, t)
+        if not isinstance(test_stmt, ast.If) or getattr(setter, 'lineno', 0) >= getattr(test_stmt, 'lineno', 0) or \
+                mod.parents.get(setter) is not mod.parents.get(test_stmt):
+            return None
+        inner = set(id(y) for y in ast.walk(test_stmt)) | set(id(y) for y in ast.walk(setter))
+        if any(id(n) not in inner for n in stores):
+            return None          # set somewhere else as well
+        none_branch_pol = a is None      # T true -> None
+        return (setter.test, none_branch_pol if is_none else not none_branch_pol)
 
     # -- one function ------------------------------------------------------------------------------------
     def scan(self, fi, ptags, chain=()):
@@ -503,9 +592,13 @@ class _Taint(object):
                 src = b.iter if not isinstance(b, ast.Assign) else b.value
                 want = 'pair' if isinstance(b, ast.Assign) else 'items'
                 for t in self.tags(src, env):
-                    if t[0] == want and t[1] == 'resources' and isinstance(tg, (ast.Tuple, ast.List)) and len(tg.elts) == 2 and \
-                            all(isinstance(x, ast.Name) for x in tg.elts):
-                        k, v = tg.elts[0].id, tg.elts[1].id
+                    tg2 = tg
+                    if t[0] == 'enum' and not isinstance(b, ast.Assign) and isinstance(tg, (ast.Tuple, ast.List)) and len(tg.elts) == 2 and \
+                            isinstance(tg.elts[0], ast.Name):
+                        tg2 = tg.elts[1]          # for <number>, (<key>, <val>) in enumerate(<items>)
+                    if (t[0] == want or (t[0] == 'enum' and tg2 is not tg)) and t[1] == 'resources' and \
+                            isinstance(tg2, (ast.Tuple, ast.List)) and len(tg2.elts) == 2 and all(isinstance(x, ast.Name) for x in tg2.elts):
+                        k, v = tg2.elts[0].id, tg2.elts[1].id
                         site = sites.get(id(b))
                         if site is None:
                             site = self._site_of.get(id(b))
@@ -586,9 +679,32 @@ class _Taint(object):
         # the redaction marker of each site this function takes part in
         for (k, _), site in keyed.items():
             self._markers(fi, k, site, chain, nodes)
+        # closures: a function defined in here reads the tagged locals it does not bind itself
+        closures = {}
+        for n in nodes:
+            if isinstance(n, (ast.FunctionDef, ast.AsyncFunctionDef)):
+                g = mod.func_of_node(n)
+                if g is None:
+                    continue
+                ct = dict((nm, set(env[nm])) for nm in free_names(g) if env.get(nm))
+                if ct:
+                    closures[g.key] = (g, n, ct)
+        called = set()
+        if closures:
+            for n in nodes:
+                if isinstance(n, ast.Call):
+                    callee, _ = resolve_callee(self.repo, fi, n)
+                    if callee is not None and callee.key in closures:
+                        ent = pending.setdefault(id(n), (n, callee, {}))
+                        for nm, ts in closures[callee.key][2].items():
+                            ent[2].setdefault(nm, set()).update(ts)
+                        called.add(callee.key)
         # follow tagged arguments into the helpers they are passed to
         for call, callee, ptags2 in pending.values():
             self.scan(callee, ptags2, chain + ((fi, call),))
+        for key, (g, dn, ct) in closures.items():
+            if key not in called:       # handed around as a callback: judged on its own
+                self.scan(g, ct, chain + ((fi, dn),))
 
     def _region(self, fi, binder):
         """The nodes that run with the binder's targets bound: the loop body, or the comprehension around the generator."""
@@ -674,6 +790,9 @@ class _Taint(object):
                 kind = 'copy (judged where it is used)'
             elif isinstance(par, (ast.For, ast.comprehension)) and par.iter is n:
                 kind = 'iteration over the names'
+            elif isinstance(par, ast.Call) and isinstance(par.func, ast.Name) and par.func.id in ('zip', 'enumerate') and not par.keywords and \
+                    any(n is a for a in par.args):
+                kind = '%s() over the names' % par.func.id
             elif isinstance(par, ast.Subscript) and par.value is n and isinstance(par.slice, ast.Constant) and tag[2] and \
                     isinstance(par.ctx, ast.Load):
                 kind = 'own constant key %r of the meta application' % (par.slice.value,)
@@ -690,12 +809,15 @@ class _Taint(object):
             elif isinstance(par, ast.Subscript) and par.value is n and isinstance(par.slice, ast.Constant) and par.slice.value == 0 and \
                     type(par.slice.value) is int and isinstance(par.ctx, ast.Load):
                 kind = 'name of the pair'
-        else:   # items
+        else:   # items / enum
             if isinstance(par, (ast.For, ast.comprehension)) and par.iter is n:
                 if id(par) in sites:
                     kind = 'iteration over (name, value) pairs (judged per use of the value)'
-                elif isinstance(par.target, ast.Name) and tag[1] == 'resources':
+                elif isinstance(par.target, ast.Name) and tag[1] == 'resources' and tag[0] == 'items':
                     kind = 'iteration over pairs (judged where the pair is taken apart)'
+            elif tag[0] == 'items' and isinstance(par, ast.Call) and isinstance(par.func, ast.Name) and par.func.id == 'enumerate' and \
+                    len(par.args) == 1 and par.args[0] is n and not par.keywords:
+                kind = 'enumerate() (judged where it is iterated)'
             elif isinstance(par, ast.Call) and isinstance(par.func, ast.Name) and len(par.args) == 1 and par.args[0] is n:
                 if par.func.id in SEQ_THROUGH and (not par.keywords or (par.func.id == 'sorted' and
                                                                          all(_names_only_key(k) for k in par.keywords))):
@@ -730,11 +852,70 @@ class _Taint(object):
             if isinstance(par, ast.Call) and par.func is n:
                 continue
             v = _fold_str(self.repo, fi, n)
-            if not v or self.polarity(fi, n, k) != 1:
+            if not v:
+                continue
+            pol = self.polarity(fi, n, k)
+            if pol != 1 and not (pol == 0 and self._default_marker(fi, n, k, site)):
                 continue
             site.markers.append((fi, n, v))
             if self.flows_to_output(fi, n, chain):
                 site.shown = True
+
+    def _default_marker(self, fi, n, k, site):
+        """``n`` is a constant stored unconditionally as the shown value and replaced only where 'secret' is known
+        not to be in the name: ``shown = MARK`` ... ``if 'secret' not in key: shown = ...`` (in the same iteration), or
+        ``table = dict.fromkeys(names, MARK)`` ... ``if 'secret' not in key: table[key] = ...``."""
+        mod = fi.mod
+        par = mod.parents.get(n)
+        if isinstance(par, ast.Assign) and par.value is n and len(par.targets) == 1 and isinstance(par.targets[0], ast.Name):
+            t = par.targets[0].id
+            region = None
+            if site.fi is fi and site.binder is not None and not isinstance(site.binder, ast.Assign):
+                region = set(id(x) for x in self._region(fi, site.binder))
+                if id(par) not in region:
+                    return False          # set once before the loop: a later iteration would see the previous value
+            elif any(isinstance(l, (ast.For, ast.While)) for l in self._stmt_loops(fi, par)) != \
+                    any(isinstance(l, (ast.For, ast.While)) for l in self._stmt_loops(fi, site.where)):
+                return False
+            others = [x for x in _walk(fi) if isinstance(x, ast.Name) and x.id == t and isinstance(x.ctx, (ast.Store, ast.Del)) and
+                      x is not par.targets[0] and (region is None or id(x) in region)]
+            if not others:
+                return False
+            for x in others:
+                st = stmt_of(mod, x)
+                if not (isinstance(st, ast.Assign) and len(st.targets) == 1 and st.targets[0] is x) or self.polarity(fi, st.value, k) != -1:
+                    return False
+            return True
+        if isinstance(par, ast.Call) and norm(par.func) == 'dict.fromkeys' and len(par.args) == 2 and par.args[1] is n and not par.keywords:
+            asg = mod.parents.get(par)
+            if not (isinstance(asg, ast.Assign) and asg.value is par and len(asg.targets) == 1 and isinstance(asg.targets[0], ast.Name)):
+                return False
+            d = asg.targets[0].id
+            if len([x for x in _walk(fi) if isinstance(x, ast.Name) and x.id == d and isinstance(x.ctx, (ast.Store, ast.Del))]) != 1:
+                return False
+            writes = 0
+            for x in _walk(fi):
+                if isinstance(x, ast.Name) and x.id == d and isinstance(x.ctx, ast.Load):
+                    up = mod.parents.get(x)
+                    if isinstance(up, ast.Subscript) and up.value is x and isinstance(up.ctx, ast.Load):
+                        continue          # read of one slot
+                    if isinstance(up, ast.Subscript) and up.value is x and isinstance(up.ctx, ast.Store):
+                        st = mod.parents.get(up)
+                        if isinstance(st, ast.Assign) and len(st.targets) == 1 and st.targets[0] is up and isinstance(up.slice, ast.Name) and \
+                                up.slice.id == k and self.polarity(fi, st.value, k) == -1:
+                            writes += 1
+                            continue
+                    return False          # any other use (update(), a call, an alias): the slots can no longer be followed
+            return writes >= 1
+        return False
+
+    def _stmt_loops(self, fi, node):
+        out, cur = [], node
+        while cur is not None and cur is not fi.node:
+            cur = fi.mod.parents.get(cur)
+            if isinstance(cur, (ast.For, ast.While)):
+                out.append(cur)
+        return out
 
     def flows_to_output(self, fi, node, chain, depth=0):
         """The value of ``node`` becomes (part of) an element of the listing: it is appended / yielded / the element of
@@ -831,6 +1012,9 @@ def _r18a(rep, repo, meta):
                 vals = list(n.values)
             elif isinstance(n, ast.Assign) and isinstance(n.targets[0], ast.Subscript):
                 vals = [n.value]
+            elif isinstance(n, ast.Assign) and isinstance(n.targets[0], (ast.Tuple, ast.List)) and isinstance(n.value, (ast.Tuple, ast.List)) and \
+                    len(n.targets[0].elts) == len(n.value.elts):
+                vals = [v for t, v in zip(n.targets[0].elts, n.value.elts) if isinstance(t, ast.Subscript)]
             elif isinstance(n, ast.Call) and call_name(n) == 'dict':
                 vals = [k.value for k in n.keywords]
             elif isinstance(n, ast.Call) and isinstance(n.func, ast.Attribute) and n.func.attr in ('append', 'insert', 'add') and \
@@ -1128,6 +1312,60 @@ def _r18b(rep, repo, meta):
 
 
 # ------------------------------------------------------------------------------------------ R18.c
+def _is_inject(fi, call):
+    """``inject(..)``, or a call of a local that names it: ``call = inject`` / ``call = partial(inject, ..)``."""
+    f = call.func
+    if call_name(call) == 'inject':
+        return True
+    if isinstance(f, ast.Name) and f.id in _local_names(fi):
+        v = _single_assignment(fi, f.id)
+        if isinstance(v, ast.Name) and v.id == 'inject':
+            return True
+        if isinstance(v, ast.Call) and norm(v.func) in ('partial', 'functools.partial') and v.args and norm(v.args[0]) == 'inject':
+            return True
+    return False
+
+
+def _run_sites(repo, fi, node, chain, depth=0):
+    """[(function, node, chain)]: where the code at ``node`` effectively runs.  Code in a lambda runs where the lambda is
+    called: on the spot for ``(lambda: ..)()``, or in the helper of the tree the lambda is handed to, at each call of
+    the parameter that receives it.  [] when that cannot be told."""
+    mod = fi.mod
+    cur = node
+    while cur is not None and cur is not fi.node:
+        par = mod.parents.get(cur)
+        if isinstance(par, ast.Lambda):
+            up = mod.parents.get(par)
+            if isinstance(up, ast.Call) and up.func is par:
+                cur = up
+                continue
+            if isinstance(up, ast.Assign) and up.value is par and len(up.targets) == 1 and isinstance(up.targets[0], ast.Name) and depth < 3 and \
+                    _single_assignment(fi, up.targets[0].id) is par:
+                # the lambda is named first: it runs where the name is called
+                out, t = [], up.targets[0].id
+                uses = [x for x in _walk(fi) if isinstance(x, ast.Name) and x.id == t and isinstance(x.ctx, ast.Load)]
+                for x in uses:
+                    c2 = mod.parents.get(x)
+                    if not (isinstance(c2, ast.Call) and c2.func is x):
+                        return []         # handed on: not followed
+                    out.extend(_run_sites(repo, fi, c2, chain, depth + 1))
+                return out
+            call = call_of_arg(mod, par)
+            if call is not None and depth < 3:
+                callee, skip = resolve_callee(repo, fi, call)
+                b = bind_args(callee, skip, call) if callee is not None else None
+                ps = [p for p, x in (b or {}).items() if x is par]
+                if ps:
+                    out = []
+                    for c2 in walk_body(callee.node):
+                        if isinstance(c2, ast.Call) and isinstance(c2.func, ast.Name) and c2.func.id == ps[0]:
+                            out.extend(_run_sites(repo, callee, c2, chain + ((fi, call),), depth + 1))
+                    return out
+            return []
+        cur = par
+    return [(fi, node, chain)]
+
+
 def _inject_calls(repo, fi, wanted, chain=(), seen=None):
     """[(function, inject call, chain of (caller, call))] for the ``inject(<peripheral>.<method>, ..)`` calls (method in
     ``wanted``) in ``fi`` and in the functions of the tree it calls."""
@@ -1136,10 +1374,10 @@ def _inject_calls(repo, fi, wanted, chain=(), seen=None):
         return []
     seen.add(fi.key)
     out = []
-    for c in walk_body(fi.node):
+    for c in _walk(fi):
         if not isinstance(c, ast.Call):
             continue
-        if call_name(c) == 'inject' and c.args:
+        if _is_inject(fi, c) and c.args:
             target = c.args[0]
             if isinstance(target, ast.Name):     # the bound method may be named first
                 srcs = [s.value for s in stmts_of(fi.node) if isinstance(s, ast.Assign) and len(s.targets) == 1 and
@@ -1176,9 +1414,24 @@ def _indexes_into(repo, fi, nodes, name, depth=0):
     return out
 
 
-def _substitutes(h, in_helper):
+def _substitutes(fi, h, in_helper):
     """The handler records something in place of the failed result: it binds / updates a local (``x = ..``, ``x[k] = ..``,
-    ``x.update(..)``, ...) or, in a helper, returns the placeholder."""
+    ``x.update(..)``, ...) or, in a helper, returns the placeholder; or it does nothing because the placeholder was
+    stored right before the try statement (``items = []`` / ``try: items = ..`` / ``except Exception: pass``)."""
+    if all(isinstance(s, ast.Pass) for s in h.body):
+        mod = fi.mod
+        tr = mod.parents.get(h)
+        holder = mod.parents.get(tr)
+        set_in_try = set(n.id for st in tr.body + tr.orelse for n in ast.walk(st) if isinstance(n, ast.Name) and isinstance(n.ctx, ast.Store))
+        for fld in ('body', 'orelse', 'finalbody'):
+            block = getattr(holder, fld, None)
+            if isinstance(block, list) and any(tr is x for x in block):
+                for st in block:
+                    if st is tr:
+                        break
+                    if isinstance(st, ast.Assign) and any(isinstance(t, ast.Name) and t.id in set_in_try for t in st.targets):
+                        return True
+        return False
     for s in h.body:
         if isinstance(s, (ast.Assign, ast.AugAssign, ast.AnnAssign)):
             return True
@@ -1197,9 +1450,15 @@ def _r18c(rep, repo, meta):
         inj = _inject_calls(repo, anchor, wanted)
         if len(inj) < floor:
             raise AnalysisError('%s: %d inject calls of %s found (floor %d)' % (anchor.qualname, len(inj), '/'.join(wanted), floor))
+        placed = []
         for fi, c, chain in inj:
+            sites = _run_sites(repo, fi, c, chain)
+            if not sites:
+                raise AnalysisError('%s: %s is made from a lambda whose place of execution cannot be followed' % (anchor.qualname, short(c, 60)))
+            placed.extend((sfi, c, snode, schain) for sfi, snode, schain in sites)
+        for fi, c, node, chain in placed:
             # the handler may sit around the call itself or around the call of the helper that makes it
-            links = list(chain) + [(fi, c)]          # outermost first
+            links = list(chain) + [(fi, node)]          # outermost first
             h, hj, hf = None, None, None
             for j in range(len(links) - 1, -1, -1):
                 h = protected_by(links[j][0], links[j][1], 'Exception')
@@ -1207,7 +1466,7 @@ def _r18c(rep, repo, meta):
                     hj, hf = j, links[j][0]
                     break
             in_helper = hf is not anchor
-            ok = h is not None and not any(isinstance(r, ast.Raise) for r in ast.walk(h)) and _substitutes(h, in_helper)
+            ok = h is not None and not any(isinstance(r, ast.Raise) for r in ast.walk(h)) and _substitutes(hf, h, in_helper)
             if ok and not in_helper and any(isinstance(s, (ast.Return, ast.Break)) for s in ast.walk(h)):
                 ok = False      # leaving the loop from the handler drops the remaining sections
             rep.check('R18.c', fkey(anchor, c), ok, 'a failing peripheral is replaced by a placeholder (handler: except %s%s)'
